@@ -138,7 +138,7 @@ theorem registerNames_ok {f : File} {m : N2C} (h : registerNames f = .ok m) :
   simp only [List.append_nil] at h1
   subst h1
   have hnd : (f.declared.reverse.map Prod.fst).Nodup := by
-    rw [List.map_reverse]; exact List.nodup_reverse.mpr h2
+    rw [List.map_reverse]; exact (List.reverse_perm _).nodup_iff.mpr h2
   constructor
   · intro hl
     exact List.mem_reverse.mp (lookupB_mem n c _ hl)
@@ -166,10 +166,12 @@ theorem eq_of_nodup_map {α β} (g : α → β) : ∀ (l : List α), (l.map g).N
   | a :: r, hnd => by
     intro x y hx hy hg
     simp only [List.map_cons, List.nodup_cons] at hnd
-    rcases List.mem_cons.mp hx with rfl | hx <;> rcases List.mem_cons.mp hy with rfl | hy
-    · rfl
-    · exact absurd (List.mem_map.mpr ⟨y, hy, hg.symm⟩) hnd.1
-    · exact absurd (List.mem_map.mpr ⟨x, hx, hg⟩) hnd.1
+    rcases List.mem_cons.mp hx with h1 | hx <;> rcases List.mem_cons.mp hy with h2 | hy
+    · rw [h1, h2]
+    · rw [h1] at hg
+      exact absurd (List.mem_map.mpr ⟨y, hy, hg.symm⟩) hnd.1
+    · rw [h2] at hg
+      exact absurd (List.mem_map.mpr ⟨x, hx, hg⟩) hnd.1
     · exact eq_of_nodup_map g r hnd.2 x y hx hy hg
 
 theorem names_sublists (f : File) (h : f.names.Nodup) :
